@@ -923,7 +923,7 @@ pub const PLAIN_POOL: [&str; 14] = ["a", "b", "c", "k1", "foo", "bar", "1", "2",
 pub const QUOTED_POOL: [&str; 10] = ["", "a", "null", "~", "12", "a: b", "# no", "it's", "x\ny", "true"];
 pub const NAME_POOL: [&str; 4] = ["a", "b", "c", "d1"];
 
-pub fn arb_scalar() -> impl Strategy<Value = Node> {
+pub fn arb_scalar() -> impl Strategy<Value = Node> + Clone + use<> {
     prop_oneof![
         6 => prop::sample::select(PLAIN_POOL.to_vec()).prop_map(Node::plain),
         1 => prop::sample::select(QUOTED_POOL.to_vec()).prop_map(|v| Node::scalar(v, Style::Double)),
@@ -934,7 +934,7 @@ pub fn arb_scalar() -> impl Strategy<Value = Node> {
 }
 
 /// keys: mostly distinct plain scalars
-pub fn arb_key() -> impl Strategy<Value = Node> {
+pub fn arb_key() -> impl Strategy<Value = Node> + Clone + use<> {
     prop_oneof![
         8 => prop::sample::select(vec!["k", "a", "b", "c", "x", "y", "n1", "key two", "7"]).prop_map(Node::plain),
         1 => prop::sample::select(vec!["q", "a b", "", "null"]).prop_map(|v| Node::scalar(v, Style::Double)),
@@ -952,7 +952,7 @@ fn dedup_keys(entries: Vec<(Node, Node)>) -> Vec<(Node, Node)> {
 }
 
 /// anchor-free, alias-free trees without duplicate keys; scalar / sequence / mapping keys
-pub fn arb_tree(depth: u32, size: u32) -> impl Strategy<Value = Node> {
+pub fn arb_tree(depth: u32, size: u32) -> impl Strategy<Value = Node> + Clone + use<> {
     arb_scalar().prop_recursive(depth, size, 4, |inner| {
         let key = prop_oneof![
             10 => arb_key(),
@@ -1047,4 +1047,61 @@ pub fn to_u_strings(n: &Node) -> crate::untyped::U {
         Kind::Map { entries, .. } => U::Map(entries.iter().map(|(k, v)| (to_u_strings(k), to_u_strings(v))).collect()),
         Kind::Alias(a) => U::Str(format!("*{a}")),
     }
+}
+
+
+// ---------------------------------------------------------------------------------------------
+// byte-driven construction (libFuzzer targets): same pools and shapes as the strategies above,
+// decoded from an `engine::Bytes` cursor so that single-byte mutations are local edits of the
+// tree. Total and bounded (depth, fan-out <= 4).
+use crate::engine::Bytes;
+
+pub fn scalar_from_bytes(b: &mut Bytes) -> Node {
+    match b.below(10) {
+        0..=5 => Node::plain(b.pick(&PLAIN_POOL)),
+        6 => Node::scalar(b.pick(&QUOTED_POOL), Style::Double),
+        7 => Node::scalar(b.pick(&QUOTED_POOL), Style::Single),
+        8 => Node::scalar(b.pick(&["line\n", "l1\nl2\n", "keep\n\n", "strip"]), Style::Literal),
+        _ => Node::scalar(b.pick(&["folded text\n", "one", "two\n\n"]), Style::Folded),
+    }
+}
+
+pub fn key_from_bytes(b: &mut Bytes) -> Node {
+    match b.below(12) {
+        0..=8 => Node::plain(b.pick(&["k", "a", "b", "c", "x", "y", "n1", "key two", "7"])),
+        9 => Node::scalar(b.pick(&["q", "a b", "", "null"]), Style::Double),
+        10 => {
+            let n = b.below(3);
+            Node::seq(true, (0..n).map(|_| scalar_from_bytes(b)).collect())
+        }
+        _ => {
+            let n = 1 + b.below(2);
+            let v = (0..n).map(|_| (Node::plain(b.pick(&["k", "a", "b", "n1"])), scalar_from_bytes(b))).collect();
+            Node::map(true, dedup_keys(v))
+        }
+    }
+}
+
+/// anchor-free, alias-free tree without duplicate keys (the shape family of `arb_tree`)
+pub fn tree_from_bytes(b: &mut Bytes, depth: u32) -> Node {
+    let k = if depth == 0 || b.is_empty() { 0 } else { b.below(4) };
+    match k {
+        0 | 1 => scalar_from_bytes(b),
+        2 => {
+            let flow = b.bool();
+            let n = b.below(4);
+            Node::seq(flow, (0..n).map(|_| tree_from_bytes(b, depth - 1)).collect())
+        }
+        _ => {
+            let flow = b.bool();
+            let n = b.below(4);
+            let v = (0..n).map(|_| (key_from_bytes(b), tree_from_bytes(b, depth - 1))).collect();
+            Node::map(flow, dedup_keys(v))
+        }
+    }
+}
+
+/// decoration script for `decorate`
+pub fn script_from_bytes(b: &mut Bytes, n: usize) -> Vec<u16> {
+    (0..n).map(|_| b.u16()).collect()
 }
